@@ -18,6 +18,7 @@ pub enum Kind {
     Bowtie,
     Holed,
     TwoPart,
+    Pent,
 }
 impl Kind {
     pub fn name(self) -> &'static str {
@@ -27,6 +28,7 @@ impl Kind {
             Kind::Bowtie => "bowtie",
             Kind::Holed => "holed",
             Kind::TwoPart => "twopart",
+            Kind::Pent => "pentagon",
         }
     }
 }
@@ -242,6 +244,49 @@ impl Table {
                 ));
             }
         }
+        // simple pentagons (appended last so that the indices of the other kinds are stable): every cyclic
+        // order of every 5-subset whose non-adjacent edges are disjoint; only for tables of at most 9 points
+        if n <= 9 {
+            let mut idx5 = vec![];
+            for a in 0..n {
+                for b in a + 1..n {
+                    for c in b + 1..n {
+                        for d in c + 1..n {
+                            for e in d + 1..n {
+                                idx5.push([a, b, c, d, e]);
+                            }
+                        }
+                    }
+                }
+            }
+            for sub in idx5 {
+                // cyclic orders up to rotation and reflection: fix the first element, permute the rest, keep p[1] < p[4]
+                let rest = [sub[1], sub[2], sub[3], sub[4]];
+                let perms4 = permutations4();
+                for pm in perms4 {
+                    let ord = [sub[0], rest[pm[0]], rest[pm[1]], rest[pm[2]], rest[pm[3]]];
+                    if ord[1] > ord[4] {
+                        continue;
+                    }
+                    let r = ring(&ord, &pts);
+                    let mut simple = true;
+                    for i in 0..5 {
+                        for j in i + 1..5 {
+                            if j == i + 1 || (i == 0 && j == 4) {
+                                continue;
+                            }
+                            if segs_touch((r[i], r[(i + 1) % 5]), (r[j], r[(j + 1) % 5])) {
+                                simple = false;
+                            }
+                        }
+                    }
+                    if simple {
+                        let o = ccw(ord.to_vec(), &pts);
+                        ops.push(mk(Kind::Pent, o.clone(), MultiPolygon(vec![poly_from(&ring(&o, &pts), &[])])));
+                    }
+                }
+            }
+        }
         Table {
             name: name.into(),
             pts,
@@ -265,4 +310,20 @@ impl Table {
         }
         true
     }
+}
+
+fn permutations4() -> Vec<[usize; 4]> {
+    let mut v = vec![];
+    for a in 0..4 {
+        for b in 0..4 {
+            for c in 0..4 {
+                for d in 0..4 {
+                    if a != b && a != c && a != d && b != c && b != d && c != d {
+                        v.push([a, b, c, d]);
+                    }
+                }
+            }
+        }
+    }
+    v
 }
